@@ -385,3 +385,12 @@ func callsAsInstrs(cs []ssa.CallInstruction) []ssa.Instruction {
 	}
 	return out
 }
+
+func containsInstr(xs []ssa.Instruction, x ssa.Instruction) bool {
+	for _, y := range xs {
+		if y == x {
+			return true
+		}
+	}
+	return false
+}
